@@ -13,15 +13,15 @@ import subprocess
 import sys
 import time
 
-VERIF = "/verif"
+VERIF = os.environ.get("VERIF_ROOT", "/verif")
 REPO = os.environ.get("VERIF_REPO", "/repo")
 COQ = f"{VERIF}/coq"
 OUT = VERIF          # where evidence/ and replays/ are written
-SCRATCH = "/root/.cache/verif-scratch"
+SCRATCH = "/root/.cache/verif-scratch" if VERIF == "/verif" else f"{VERIF}/.scratch"
 if os.path.realpath(REPO) != "/repo":
     # a check run against a scratch copy of the repository must not disturb /verif/coq (its Gen/ files are regenerated
     # from REPO): work in a private mirror of the Coq tree and write evidence/replays there
-    _alt = "/root/.cache/verif-alt/" + os.path.basename(os.path.realpath(REPO))
+    _alt = ("/root/.cache/verif-alt/" if VERIF == "/verif" else f"{VERIF}/.alt/") + os.path.basename(os.path.realpath(REPO))
     os.makedirs(_alt, exist_ok=True)
     subprocess.run(["rsync", "-a", "--delete", "--exclude", "Corr/", "--exclude", ".lock", f"{VERIF}/coq/", f"{_alt}/coq/"], check=False)
     COQ = f"{_alt}/coq"
